@@ -11,14 +11,14 @@ PROPS_FILE = 'Props/C08.v'
 MODEL_FILES = ['Linker/Linker.v', 'Linker/LinkerRange.v', 'Linker/LinkerF.v']
 K_NAME = ('K_linker (Linker.linker_solve_t_M / LinkerRange.linker_solve_span_M (constructor model + SolveAll.iter_periods_M + fold) / '
           'linker_ctor_M instantiated with PrimFloat vs BaseLinker.solve_t / solve(start=, end=) / __init__ on scripted submodels and scripted linker hooks; twin: Solver.solve_t_M vs BaseModel.solve_t)')
-RULE = ('linkers over 1-4 submodels BUILT by fsic from C01-grammar programs (7 templates: static, lag 1/2, lead 1/2, two-equation '
+RULE = ('linkers over 1-4 submodels BUILT by fsic from C01-grammar programs (9 templates incl. divisions by zero under every errors= policy: static, lag 1/2, lead 1/2, two-equation '
         'simultaneous blocks; differing LAGS/LEADS) cross-linked through the linker hooks, solve_t and solve(start=, end=) — their recorded '
         'per-pass values instantiate the model oracle; linkers over 0-4 scripted submodels (1-3 variables each, differing LAGS/LEADS, differing check lists) and 0-2 linker variables; '
         'scripted hooks that write linker variables and cross-link submodel variables; every subset and order of `submodels=` incl. '
         'duplicates and an unknown id at each position; positive/negative/out-of-span t; min_iter 0..max_iter+2, max_iter 0..4 (and <0), '
         'tol in {1e-10, 0.5, 1, 0, 1e-300}, failures; exhaustive per-iteration move sequences (0, tol-1ulp, tol, tol+1ulp, 1.0 per check '
         'entry) up to the tier bound; non-finite values; raising hooks / submodels at every stage; offsets in and out of span; '
-        'multi-period solve(start=, end=) by label incl. defaults from the longest lag / lead, reversed and empty ranges, unknown labels, empty span; single-model linker vs bare model twins; constructor over list / range / ndarray / Index spans. '
+        'multi-period solve(start=, end=) by label incl. defaults from the longest lag / lead, reversed and empty ranges, unknown labels, empty span; copies of a linker (copy() / copy.copy / copy.deepcopy): solve the copy or the original, the other stays untouched and nothing is shared; single-model linker vs bare model twins; constructor over every ordered pair of list / tuple / range / ndarray / pandas Index / PeriodIndex / DatetimeIndex spans (equal, one position different, shorter, empty) and random mixed-kind families. '
         'Non-trivial = at least 2 iterations executed, or a stop exactly at k=min_iter or k=max_iter, or an exception path, or a '
         'constructor call over >= 2 submodels; distinct by hash of the whole case.')
 TRUSTED = ['scripted submodel / linker subclasses harness/scripted_linker.py (the same scripts are the Coq oracles of Linker/LinkerF.v); '
@@ -26,7 +26,7 @@ TRUSTED = ['scripted submodel / linker subclasses harness/scripted_linker.py (th
 ASSUMPTIONS = ['_evaluate of a submodel writes only that submodel\'s variable values; the four linker hooks write only variable values of the '
                'linker and of its submodels (not status / iterations, not the submodels dictionary) — the shape of the model\'s oracles',
                'submodel identifiers are hashable keys compared with == (modelled as natural numbers)',
-               'how Python evaluates `span != span` for list / range / ndarray / pandas Index operands (tabulated in Linker.span_ne, observed by K)',
+               'element equality across span containers: integers of list / tuple / range / ndarray / Index compare by value, a pandas Period / Timestamp never equals an integer or each other (Linker.elt_class; observed by K over all 49 ordered kind pairs)',
                'solve(start=, end=): labels of a list span are located with list.index (SolveAll.locate_index; other span containers are the subject of C05); '
                'the theorems take the lookup as a Section variable']
 EXHAUSTIVE = {'quick': False, 'thorough': False}
@@ -40,7 +40,9 @@ EXN = {'ValueError': 'ValueError', 'IndexError': 'IndexError', 'KeyError': 'KeyE
        'InitialisationError': 'InitialisationError', 'NotImplementedError': 'NotImplementedError'}
 CAUSE_TAG = {'RuntimeWarning': 1, 'IndexError': 2, 'ZeroDivisionError': 10, 'KeyError': 11, 'RuntimeError': 12, 'ValueError': 13,
              'FloatingPointError': 14}
-KINDS = {'list': 'SList', 'range': 'SRange', 'ndarray': 'SArray', 'index': 'SArray'}
+KINDS = {'list': 'SList', 'tuple': 'STuple', 'range': 'SRange', 'ndarray': 'SArray', 'index': 'SIndex', 'period': 'SPeriodIndex',
+         'datetime': 'SDatetimeIndex'}
+ELT_CLASS = {'period': 1, 'datetime': 2}          # what iterating over the span yields: integers (0), Periods, Timestamps
 
 
 # =========================================================================== implementation side
@@ -99,10 +101,8 @@ def impl(case):
         L, out = _out_of(lambda: fsic.BaseLinker(subs, **kw))
         if out is not None:
             return {'out': out[:2]}
-        sp = L.span
-        kindname = ('range' if isinstance(sp, range) else 'list' if isinstance(sp, (list, tuple)) else
-                    'ndarray' if type(sp).__module__.startswith('numpy') else 'index')
-        return {'out': ['ret'], 'span': [kindname, [int(x) for x in sp]], 'LAGS': int(L.LAGS), 'LEADS': int(L.LEADS),
+        kindname, labels = sl.span_kind_labels(L.span)
+        return {'out': ['ret'], 'span': [kindname, labels], 'LAGS': int(L.LAGS), 'LEADS': int(L.LEADS),
                 'lags': int(L.lags), 'leads': int(L.leads),
                 'shares_span_object': bool(subs) and (L.span is next(iter(subs.values())).span)}
     L, subs, shared = sl.instantiate_linker(fsic, case)
@@ -111,6 +111,42 @@ def impl(case):
         r, out = _out_of(lambda: L.solve_t(case['t'], **kw))
         obs = _observe(L, subs, shared, case)
         obs['out'] = out if out is not None else ['ret', bool(r)]
+        return obs
+    if kind == 'copy':
+        # a copy of the linker (copy() / copy.copy / copy.deepcopy) must be independent of the original: solve ONE of the two,
+        # the other must stay exactly as it was (values, statuses, counters, nothing evaluated), and the solved one must
+        # behave as a freshly built linker does (the same statement, the same model run)
+        import copy as _copy
+        import numpy as np
+        how = case['copy_how']
+        L2 = L.copy() if how == 'copy' else _copy.copy(L) if how == 'copy.copy' else _copy.deepcopy(L)
+        subs2 = list(L2.__dict__['submodels'].values())
+        shared2 = []                                   # the harness' own instrumentation is re-wired on the copy
+        L2.__dict__.update(_shared=shared2, _selseen=[], _snaps=[])
+        for m in subs2:
+            m.__dict__.update(_shared=shared2, _evlog=[], _kwseen=[])
+            if '_recorded' in m.__dict__:
+                m.__dict__.update(_recorded={}, _rec_clash=False)
+
+        def arrays(lk, ms):
+            out = [lk.__dict__['_status'], lk.__dict__['_iterations']] + [lk.__dict__['_' + n] for n in lk.names]
+            for m in ms:
+                out += [m.__dict__['_status'], m.__dict__['_iterations']] + [m.__dict__['_' + n] for n in m.names]
+            return out
+        aliased = (any(a is b for a in subs for b in subs2)
+                   or any(np.shares_memory(a, b) for a, b in zip(arrays(L, subs), arrays(L2, subs2)))
+                   or L.__dict__['submodels'] is L2.__dict__['submodels'])
+        same_shape = (list(L.__dict__['submodels'].keys()) == list(L2.__dict__['submodels'].keys()) and list(L.span) == list(L2.span)
+                      and (L.LAGS, L.LEADS, L.lags, L.leads) == (L2.LAGS, L2.LEADS, L2.lags, L2.leads) and type(L2) is type(L))
+        target, tsubs, tshared, other, osubs, oshared = ((L2, subs2, shared2, L, subs, shared) if case['solve_which'] == 'copy'
+                                                         else (L, subs, shared, L2, subs2, shared2))
+        r, out = _out_of(lambda: target.solve_t(case['t'], **kw))
+        obs = _observe(target, tsubs, tshared, case)
+        obs['out'] = out if out is not None else ['ret', bool(r)]
+        ob2 = _observe(other, osubs, oshared, case)
+        obs['other'] = {k: ob2[k] for k in ('core', 'subs', 'log')}
+        obs['aliased'] = bool(aliased)
+        obs['same_shape'] = bool(same_shape)
         return obs
     if kind == 'solve':
         span = L.span
@@ -316,7 +352,7 @@ def c_case(case, obs):
         return '(CCtor %s %s %s)' % (subs, span, xr)
     s0 = c_lstate(case, case['core'], case['subs'], [])
     xs = c_lstate(case, obs['core'], obs['subs'], obs['log'])
-    if kind == 'solve_t':
+    if kind in ('solve_t', 'copy'):
         return '(CSolveT %s %s %s %s %s %s %s %s)' % (c_subscripts(case), c_lscripts(case.get('hooks', {})), c_sel(case.get('sel')),
                                                       c_opts(case['opts']), lib.cZ(case['t']), s0, xs, c_lout(obs['out']))
     if kind == 'solve':
@@ -589,38 +625,44 @@ def oracle(case, obs):
         if case.get('span') is not None:
             return fails               # custom span with submodels: NotImplementedError by design, not part of the statement
         base = subs[0]['span']
-        arrayish = len(subs) > 1 and any(s['span'][0] in ('ndarray', 'index') for s in subs)
-        # "differing spans" = the sequences of period labels differ; identical = same labels in the same kind of container
-        # (the same labels held in different container types, e.g. range(3) vs [0, 1, 2], are left to the implementation)
-        differ = any(s['span'][1] != base[1] for s in subs[1:])
-        mixed = any(s['span'][0] != base[0] for s in subs[1:])
-        if mixed and not differ:
-            return fails
+        # "differing spans": the sequences of periods the spans hold differ (in length or at some position); a period is what
+        # iterating over the span yields — an integer (list / tuple / range / ndarray / Index), a Period or a Timestamp —
+        # so [2000, 2001] and range(2000, 2002) do not differ, [2000] and PeriodIndex(['2000']) do
+        elems = lambda sp: [(ELT_CLASS.get(sp[0], 0), x) for x in sp[1]]
+        differ = any(elems(s['span']) != elems(base) for s in subs[1:])
         if differ:
             if out[0] != 'raise':
                 bad('ctor|differing-spans-accepted', 'submodels with differing spans were accepted: %s' % [s['span'] for s in subs])
             elif out[1] != 'InitialisationError':
-                if arrayish and out[1] == 'ValueError':
-                    bad('ctor|array-span|ValueError', 'NumPy-array / pandas-Index spans: the span test `comparator.span != base.span` raises ValueError')
-                else:
-                    bad('ctor|differing-spans|class', 'differing spans must be rejected with InitialisationError; got %s' % out[1])
+                bad('ctor|differing-spans|class', 'differing spans %s must be rejected with InitialisationError; got %s' % ([s['span'] for s in subs], out[1]))
         else:
             if out[0] == 'raise':
-                if arrayish and out[1] == 'ValueError':
-                    bad('ctor|array-span|ValueError', 'NumPy-array / pandas-Index spans: the span test `comparator.span != base.span` raises ValueError')
-                else:
-                    bad('ctor|equal-spans-rejected', 'submodels with identical spans were rejected with %s' % out[1])
+                bad('ctor|equal-spans-rejected', 'submodels with identical spans %s were rejected with %s' % ([s['span'] for s in subs], out[1]))
             else:
                 ml, md = max(s['lags'] for s in subs), max(s['leads'] for s in subs)
                 if (obs['LAGS'], obs['LEADS'], obs['lags'], obs['leads']) != (ml, md, ml, md):
                     bad('ctor|lags-leads', 'linker LAGS/LEADS must be the maxima over the submodels (%d, %d); got %s' % (ml, md, (obs['LAGS'], obs['LEADS'], obs['lags'], obs['leads'])))
-                if obs['span'][1] != base[1]:
-                    bad('ctor|span', 'linker span differs from the submodels\' span')
+                if obs['span'][1] != base[1] or ELT_CLASS.get(obs['span'][0], 0) != ELT_CLASS.get(base[0], 0):
+                    bad('ctor|span', 'linker span %s differs from the submodels\' span %s' % (obs['span'], base))
                 if obs.get('shares_span_object') and base[0] == 'list':
                     bad('ctor|span-shared', 'the linker\'s span is the first submodel\'s list object, not a copy')
         return fails
     if kind == 'solve_t':
         _oracle_solve_t(case, obs, bad)
+        return fails
+    if kind == 'copy':
+        _oracle_solve_t(case, obs, bad)               # the solved one (copy or original) obeys the statement like any linker
+        oth = obs['other']
+        if obs['aliased']:
+            bad('copy|aliased', 'the %s-copy shares a submodel object / a NumPy buffer / the submodels dictionary with the original' % case['copy_how'])
+        if not obs['same_shape']:
+            bad('copy|shape', 'the copy differs from the original in class, submodel ids / order, span or lags / leads')
+        untouched = oth['core'] == {k: case['core'][k] for k in ('vals', 'status', 'iters')} and not oth['log'] and \
+            all({k: d[k] for k in ('vals', 'status', 'iters')} == {k: s[k] for k in ('vals', 'status', 'iters')} and not d['evlog']
+                for s, d in zip(case['subs'], oth['subs']))
+        if not untouched:
+            bad('copy|not-independent', 'solving the %s changed (or evaluated) the %s' % (
+                'copy' if case['solve_which'] == 'copy' else 'original', 'original' if case['solve_which'] == 'copy' else 'copy'))
         return fails
     if kind == 'solve':
         o = case['opts']
@@ -682,7 +724,7 @@ def oracle(case, obs):
 def guard(case, obs):
     """Inputs inside the guard class of a kept finding: the model mirrors the defect there, K is silent."""
     if case['kind'] == 'ctor':
-        return any(s['span'][0] in ('ndarray', 'index') for s in case['subs']) and len(case['subs']) > 1     # span test on arrays
+        return False
     return case['opts']['offset'] != 0           # finding #8: offset ignored by the linker
 
 
@@ -1028,6 +1070,10 @@ TEMPLATES = [
     ('Y = {a} * Y[-2] + X[1]', ['Y', 'X'], [0], [0], 2, 1),
     ('Y = X[-1] + {c}\nZ = {a} * Y', ['Y', 'Z', 'X'], [0, 1], [0, 1], 1, 0),
     ('Y = {a} * X[2] + {c} * Y[-1]', ['Y', 'X'], [0], [0], 1, 2),
+    # division: Z = 0 makes the generated code produce inf / nan (or raise, under errors='raise' with catch_first_error) — the
+    # linker has no error policy of its own: a raised exception surfaces, a stored non-finite value is simply compared
+    ('Y = {a} * X / Z + {c}', ['Y', 'X', 'Z'], [0], [0], 0, 0),
+    ('Y = X[-1] / Z\nW = Y - Y', ['Y', 'W', 'X', 'Z'], [0, 1], [0, 1], 1, 0),
 ]
 
 
@@ -1100,34 +1146,57 @@ def built_case(rng, kind):
     return c
 
 
+SPAN_KINDS = ['list', 'tuple', 'range', 'ndarray', 'index', 'period', 'datetime']
+
+
 def ctor_cases(rng, count):
+    """constructor over 0-4 submodels: one container kind or mixed kinds; later spans equal to the first, or different in
+    length (shorter / longer / empty) or at one position (first / middle / last) or shifted; differing LAGS / LEADS"""
     cases = []
     for _ in range(count):
         ns = rng.choice([0, 1, 2, 2, 3, 3, 4])
-        kind = rng.choice(['list'] * 4 + ['range'] * 2 + ['ndarray', 'index'])
+        kind = rng.choice(['list'] * 3 + ['range'] * 2 + ['tuple', 'ndarray', 'ndarray', 'index', 'index', 'period', 'period', 'datetime'])
+        mixed = rng.random() < 0.3
         n = rng.randint(0, 4)
-        base = list(range(5, 5 + n))
+        base = list(range(2000, 2000 + n))
         subs = []
         for i in range(ns):
-            k, lab = kind, list(base)
-            r = rng.random()
-            if i > 0 and r < 0.3:
+            k = rng.choice(SPAN_KINDS) if mixed and i > 0 else kind
+            lab = list(base)
+            if i > 0 and rng.random() < 0.3:
                 q = rng.random()
-                if q < 0.3 and lab:
-                    lab = lab[:-1]
-                elif q < 0.5:
-                    lab = lab + [lab[-1] + 1 if lab else 5]
+                if q < 0.25 and lab:
+                    lab = lab[:-1]                                            # shorter
+                elif q < 0.45:
+                    lab = lab + [lab[-1] + 1 if lab else 2000]                # longer
+                elif q < 0.6 and lab:
+                    lab = [x + 1 for x in lab]                                # shifted: every position differs
                 elif q < 0.7 and lab:
-                    lab = [x + 1 for x in lab]
-                elif q < 0.85 and lab and kind != 'range':
-                    lab[rng.randrange(len(lab))] += 100
-                else:
-                    k = rng.choice(['list', 'range', 'ndarray', 'index'])
+                    lab = []                                                  # empty
+                elif lab:
+                    if k == 'range':
+                        k = 'list'
+                    lab[rng.choice([0, len(lab) // 2, len(lab) - 1])] += rng.choice([100, 1, -1]) if len(lab) == 1 else 100     # one position
             subs.append({'id': i, 'span': [k, lab], 'lags': rng.randint(0, 4), 'leads': rng.randint(0, 4)})
         c = {'kind': 'ctor', 'subs': subs, 'span': None, 'opts': mk_opts()}
-        if rng.random() < 0.15:
+        if rng.random() < 0.12:
             c['span'] = ['list', list(range(3))]
         cases.append(c)
+    return cases
+
+
+def ctor_fixed_cases():
+    """every ordered pair of container kinds: equal spans, the last / first position different, one period fewer, both empty"""
+    cases = []
+    for ka in SPAN_KINDS:
+        for kb in SPAN_KINDS:
+            for la, lb in (([2000, 2001, 2002], [2000, 2001, 2002]), ([2000, 2001, 2002], [2000, 2001, 2003]), ([2000, 2001], [1999, 2001]),
+                           ([2000, 2001], [2000]), ([], []), ([2000], [2000]), ([2000], [])):
+                if (ka == 'range' and la[1:] and la != list(range(la[0], la[0] + len(la)))) or \
+                   (kb == 'range' and lb[1:] and lb != list(range(lb[0], lb[0] + len(lb)))):
+                    continue
+                cases.append({'kind': 'ctor', 'span': None, 'opts': mk_opts(),
+                              'subs': [{'id': 0, 'span': [ka, la], 'lags': 1, 'leads': 0}, {'id': 1, 'span': [kb, lb], 'lags': 0, 'leads': 2}]})
     return cases
 
 
@@ -1188,9 +1257,14 @@ def gen(rng, tier):
     cases = fixed_cases()
     cases += lattice_cases(rng, 2, 2, 2) if quick else lattice_cases(rng, 2, 3, 2) + lattice_cases(rng, 3, 2, 2)
     cases += selection_cases(rng, 3 if quick else 4)
+    cases += ctor_fixed_cases()
     cases += ctor_cases(rng, 300 if quick else 5000)
     for _ in range(300 if quick else 5000):
         cases.append(built_case(rng, 'solve_t' if rng.random() < 0.65 else 'solve'))
+    for _ in range(200 if quick else 4000):           # copies: solve the copy (or the original), the other one must not move
+        c = built_case(rng, 'solve_t') if rng.random() < 0.3 else random_case(rng, 'solve_t')
+        c.update(kind='copy', copy_how=rng.choice(['copy', 'copy', 'copy.copy', 'deepcopy']), solve_which=rng.choice(['copy', 'copy', 'orig']))
+        cases.append(c)
     n_rand = 2500 if quick else 60000
     for _ in range(n_rand):
         r = rng.random()
